@@ -5,6 +5,7 @@
 package tds
 
 import (
+	"fmt"
 	"sync"
 )
 
@@ -155,6 +156,32 @@ func (queue *PacketQueue) Bytes(n int) ([]byte, error) {
 
 	if n == 0 {
 		return []byte{}, nil
+	}
+
+	if n < 0 {
+		return []byte{}, fmt.Errorf("tds: invalid byte count %d", n)
+	}
+
+	// n may stem from a length field sent by the server - do not allocate
+	// more than the queue is able to deliver.
+	available := 0
+	for i := queue.indexPacket; i < len(queue.queue) && available < n; i++ {
+		available += len(queue.queue[i].Data)
+		if i == queue.indexPacket {
+			available -= queue.indexData
+		}
+	}
+	if available < n {
+		// Everything available is consumed by the failed read, the caller
+		// restores the position.
+		queue.indexPacket = len(queue.queue)
+		queue.indexData = 0
+
+		short := n
+		if short > 8 {
+			short = 8
+		}
+		return make([]byte, short), ErrNotEnoughBytes
 	}
 
 	bs := make([]byte, n)
